@@ -269,6 +269,8 @@ pub struct Recorder {
     pub cache_hit: AtomicU64,
     /// per-query logical budgets for searches running on the application's worker threads (0 = off)
     pub budget: crate::hooks::Budget,
+    /// (vertices, edges) of the network: budgets are re-derived from the k the algorithm reports (a query may override k)
+    pub net_size: Option<(usize, usize)>,
 }
 
 thread_local! {
@@ -279,6 +281,8 @@ thread_local! {
     static DELAY_RNG: std::cell::RefCell<Option<Rng>> = const { std::cell::RefCell::new(None) };
     /// (loop tops, ksp outer turns, ksp inner turns) of the query currently running on this thread
     static STEPS: std::cell::Cell<(u64, u64, u64)> = const { std::cell::Cell::new((0, 0, 0)) };
+    /// the k in force for the query running on this thread, as reported by the k-shortest-path loop itself
+    static KEFF: std::cell::Cell<usize> = const { std::cell::Cell::new(0) };
 }
 
 fn qid_of(v: &Value) -> String {
@@ -296,10 +300,15 @@ fn qid_of(v: &Value) -> String {
 
 impl Recorder {
     pub fn new(delay_seed: u64, delay: bool) -> Recorder {
-        Recorder { events: Mutex::new(vec![]), seq: AtomicU64::new(0), delay_seed, delay, batches: Mutex::new(vec![]), cache_miss: AtomicU64::new(0), cache_hit: AtomicU64::new(0), budget: crate::hooks::Budget::default() }
+        Recorder { events: Mutex::new(vec![]), seq: AtomicU64::new(0), delay_seed, delay, batches: Mutex::new(vec![]), cache_miss: AtomicU64::new(0), cache_hit: AtomicU64::new(0), budget: crate::hooks::Budget::default(), net_size: None }
     }
     pub fn with_budget(mut self, b: crate::hooks::Budget) -> Recorder {
         self.budget = b;
+        self
+    }
+    /// budgets follow the k the running algorithm reports: work proportional to a requested k is not "unbounded"
+    pub fn with_net_size(mut self, nv: usize, ne: usize) -> Recorder {
+        self.net_size = Some((nv, ne));
         self
     }
     fn step(&self, which: usize, what: &str) {
@@ -310,7 +319,15 @@ impl Recorder {
             _ => c += 1,
         }
         STEPS.with(|s| s.set((a, b, c)));
-        let over = (self.budget.steps > 0 && a + b + c > self.budget.steps) || (self.budget.ksp_outer > 0 && b > self.budget.ksp_outer) || (self.budget.ksp_inner > 0 && c > self.budget.ksp_inner);
+        let mut lim = self.budget;
+        let keff = KEFF.with(|k| k.get());
+        if let (Some((nv, ne)), true) = (self.net_size, keff > 0 && lim.steps > 0) {
+            let scaled = crate::run::step_budget(nv, ne, keff.min(1_000_000));
+            lim.steps = lim.steps.max(scaled.steps);
+            lim.ksp_outer = lim.ksp_outer.max(scaled.ksp_outer);
+            lim.ksp_inner = lim.ksp_inner.max(scaled.ksp_inner);
+        }
+        let over = (lim.steps > 0 && a + b + c > lim.steps) || (lim.ksp_outer > 0 && b > lim.ksp_outer) || (lim.ksp_inner > 0 && c > lim.ksp_inner);
         if over {
             STEPS.with(|s| s.set((0, 0, 0)));
             std::panic::panic_any(crate::hooks::BudgetExceeded { steps: a + b + c, limit: self.budget.steps, last: what.to_string() });
@@ -351,10 +368,14 @@ impl Recorder {
                 }
             }
             Event::LoopTop { .. } => self.step(0, "LoopTop"),
-            Event::KspOuter { algorithm, .. } => self.step(1, &format!("KspOuter({algorithm})")),
+            Event::KspOuter { algorithm, k, .. } => {
+                KEFF.with(|c| c.set(*k));
+                self.step(1, &format!("KspOuter({algorithm})"))
+            }
             Event::KspInner { algorithm, .. } => self.step(2, &format!("KspInner({algorithm})")),
             Event::QueryStart(q) => {
                 STEPS.with(|s| s.set((0, 0, 0)));
+                KEFF.with(|c| c.set(0));
                 self.push("start", qid_of(q));
                 self.maybe_delay();
             }
